@@ -81,6 +81,9 @@ type Config struct {
 	Prices              []PriceCfg  `json:"prices"`
 	Holders             []HolderCfg `json:"holders"`
 	NoPrices            bool        `json:"no_prices"`
+	// ParamSalt > 0 moves every remaining parameter away from its default (windows, slash fractions, bridge address,
+	// chain id, contract hash), so that a field lost or defaulted somewhere shows
+	ParamSalt uint64 `json:"param_salt,omitempty"`
 }
 
 // Chains in the order of DefaultParams.
@@ -353,6 +356,18 @@ func (h *Hub) GenesisState() mtypes.GenesisState {
 	p.AverageBscBlockTime = cfg.AvgBscBlockTime
 	p.SignedSignerSetTxsWindow = cfg.SignerSetWindow
 	p.Chains = append([]string{}, Chains...)
+	if n := cfg.ParamSalt; n > 0 {
+		p.ContractSourceHash = fmt.Sprintf("contract-hash-%d", n)
+		p.BridgeEthereumAddress = fmt.Sprintf("0x%040x", 0xb21d6e0000+n)
+		p.BridgeChainId = 1000 + n
+		p.SignedBatchesWindow = 11000 + n
+		p.EthereumSignaturesWindow = 12000 + n
+		p.UnbondSlashingSignerSetTxsWindow = 13000 + n
+		p.SlashFractionSignerSetTx = sdk.NewDecWithPrec(int64(2+n%7), 3)
+		p.SlashFractionBatch = sdk.NewDecWithPrec(int64(3+n%5), 3)
+		p.SlashFractionEthereumSignature = sdk.NewDecWithPrec(int64(4+n%3), 3)
+		p.SlashFractionConflictingEthereumSignature = sdk.NewDecWithPrec(int64(5+n%11), 3)
+	}
 	ti := &mtypes.TokenInfos{}
 	for _, t := range cfg.Tokens {
 		ti.TokenInfos = append(ti.TokenInfos, &mtypes.TokenInfo{
